@@ -51,6 +51,36 @@ mod discharge {
         assert!(w <= 1);
     }
 
+    /// A4: the derived `PartialEq` of the enums that exec code compares with `==` / `!=` (KeyCode, HandleControl, KeyState,
+    /// and DecodedKey / KeyEvent built from them) is structural: equal iff same variant and equal payloads.
+    /// `x_keycode` lists every variant of the enum once (generated from the enum on every run), so index equality is
+    /// variant identity. Loop-free, full domain (124 x 124 keys, 2 x 2 modes, 3 x 3 states, all chars): complete.
+    #[kani::proof]
+    fn derived_eq_is_structural() {
+        let i: u8 = kani::any();
+        let j: u8 = kani::any();
+        kani::assume(i < X_NKEYS && j < X_NKEYS);
+        let (a, b) = (x_keycode(i), x_keycode(j));
+        assert!((a == b) == (i == j));
+        assert!((a != b) == (i != j));
+        let hi: bool = kani::any();
+        let hj: bool = kani::any();
+        let h = |x: bool| if x { HandleControl::MapLettersToUnicode } else { HandleControl::Ignore };
+        assert!((h(hi) == h(hj)) == (hi == hj));
+        assert!((h(hi) != h(hj)) == (hi != hj));
+        let si: u8 = kani::any();
+        let sj: u8 = kani::any();
+        kani::assume(si < 3 && sj < 3);
+        let st = |x: u8| match x { 0 => KeyState::Up, 1 => KeyState::Down, _ => KeyState::SingleShot };
+        assert!((st(si) == st(sj)) == (si == sj));
+        assert!((KeyEvent::new(a, st(si)) == KeyEvent::new(b, st(sj))) == (i == j && si == sj));
+        let c: char = kani::any();
+        let d: char = kani::any();
+        assert!((DecodedKey::Unicode(c) == DecodedKey::Unicode(d)) == (c == d));
+        assert!((DecodedKey::RawKey(a) == DecodedKey::RawKey(b)) == (i == j));
+        assert!(DecodedKey::RawKey(a) != DecodedKey::Unicode(c));
+    }
+
     /// A3b: char::from(u8) / u8.into() is the `as char` cast
     #[kani::proof]
     fn char_from_u8_is_cast() {
